@@ -53,6 +53,14 @@ def swap_recv(h):
     return None
 
 
+SELFTESTS = [
+    ("BrokerTrace rejects a duplicated receive", TRACE, dup_recv, "delivery/duplicate"),
+    ("BrokerTrace rejects a receive of something never published", TRACE, unpublished_recv, "delivery/not-published"),
+    ("BrokerTrace rejects a dropped receive (message owed, subscriber receiving)", TRACE, drop_recv, "exactly-once/lost"),
+    ("BrokerTrace rejects two messages of one publisher received out of order", TRACE, swap_recv, "order/publisher-order"),
+]
+
+
 def run(rep, tier, seed, replay_file=None):
     quick = tier == "quick"
     rep.assumptions += [
@@ -67,30 +75,33 @@ def run(rep, tier, seed, replay_file=None):
     if replay_file:
         bc.replay_file(rep, replay_file, None)
         return
-    binary = harness.build("vh-broker")
+    with bc.phase(rep, "build"):
+        binary = harness.build("vh-broker")
     # 1. design level
-    if bc.run_impl(rep, bc.delivery_models(quick), workers=4 if quick else 5, parallel=2 if quick else 3):
-        bc.run_asis(rep, ["unsub"])
+    with bc.phase(rep, "impl-models"):
+        if bc.run_impl(rep, bc.delivery_models(quick), workers=4 if quick else 5, parallel=2 if quick else 3):
+            bc.run_asis(rep, ["unsub"])
     # 2. model -> code: driver schedules of BrokerStep, executed on the real broker, judged by BrokerTrace
-    scheds, _ = bc.gen_schedules(rep, quick, seed, 2200 if quick else 9000)
-    hists = bc.run_schedules(rep, binary, scheds, 12, seed, "broker/sched") if scheds else []
+    with bc.phase(rep, "schedule-generation"):
+        scheds, _ = bc.gen_schedules(rep, quick, seed, 2200 if quick else 9000)
+    with bc.phase(rep, "schedule-execution"):
+        hists = bc.run_schedules(rep, binary, scheds, 12, seed, "broker/sched") if scheds else []
     if hists:
-        bc.judge_delivery(rep, hists, "broker/sched")
+        with bc.phase(rep, "trace-validation"):
+            bc.judge_delivery(rep, hists, "broker/sched")
         rep.sample(dict(kind="driver schedule (BrokerStep) executed with observation at quiescence", schedule=scheds[len(scheds) // 2]))
         rep.sample(dict(kind="recorded history judged by BrokerTrace", events=max(hists[:200], key=len)[:30]))
     # 3. code -> model: random concurrent drivers
-    rec = bc.record(rep, binary, 600 if quick else 6000, seed)
+    with bc.phase(rep, "recorder"):
+        rec = bc.record(rep, binary, 600 if quick else 6000, seed)
     if rec:
-        bc.judge_delivery(rep, rec, "broker/record")
+        with bc.phase(rep, "trace-validation"):
+            bc.judge_delivery(rep, rec, "broker/record")
     else:
         rep.infra_error("recorder produced no history")
     # 4. the binding is not vacuous
-    bc.mutate_selftests(rep, hists + rec, [
-        ("BrokerTrace rejects a duplicated receive", TRACE, dup_recv, "delivery/duplicate"),
-        ("BrokerTrace rejects a receive of something never published", TRACE, unpublished_recv, "delivery/not-published"),
-        ("BrokerTrace rejects a dropped receive (message owed, subscriber receiving)", TRACE, drop_recv, "exactly-once/lost"),
-        ("BrokerTrace rejects two messages of one publisher received out of order", TRACE, swap_recv, "order/publisher-order"),
-    ])
+    with bc.phase(rep, "self-tests"):
+        bc.mutate_selftests(rep, hists + rec, SELFTESTS)
     rep.cov["rule"] = ("schedules = scenarios of BrokerStep (edge cover stratified by step kinds + random deep ones; thorough: + all "
                        "sequences of length 4) x configurations of BrokerStep!StepConfigs (every back-end x ParallelDispatch x "
                        "WorkerPoolSize 1,2 x BufferSize 0,1), executed on a real Broker with every API call in its own goroutine and "
